@@ -279,7 +279,9 @@ def run_job(job, scratch, clause_text=None):
     job.binary = binary
     cmd = cbmc_cmd(job, binary)
     job.cmd = ' '.join(cmd[:1] + ['<binary>'] + cmd[2:])
-    rc, out, err, secs = run(cmd, cwd=wd, timeout=job.timeout)
+    # temporary files of cbmc / the SMT solvers go into the job directory (removed with the scratch directory even
+    # when the process is killed on timeout)
+    rc, out, err, secs = run(cmd, cwd=wd, timeout=job.timeout, env={'TMPDIR': wd})
     job.solver_s = secs
     if rc == -9:
         job.status, job.reason = 'undecided', 'cbmc timeout after %ds (%s)' % (job.timeout, job.backend)
@@ -356,7 +358,7 @@ def run_job(job, scratch, clause_text=None):
 def get_trace(job):
     """Re-run a failed job with --trace; returns {obligation id: {var: value}} for harness inputs."""
     cmd = cbmc_cmd(job, job.binary, trace=True)
-    rc, out, err, secs = run(cmd, cwd=job.workdir, timeout=job.timeout * 2)
+    rc, out, err, secs = run(cmd, cwd=job.workdir, timeout=job.timeout * 2, env={'TMPDIR': job.workdir})
     results, msgs, status = parse_cbmc_json(out)
     traces = {}
     if not results:
@@ -420,7 +422,7 @@ def run_jobs(jobs, scratch, clause_text=None, ncpu=None):
 # Build helpers
 
 def goto_cc(args, cwd, what):
-    rc, out, err, s = run(['goto-cc'] + args, cwd=cwd, timeout=300)
+    rc, out, err, s = run(['goto-cc'] + args, cwd=cwd, timeout=300, env={'TMPDIR': cwd} if cwd else None)
     if rc != 0:
         raise Undecided('goto-cc failed on %s: %s' % (what, (out + err)[-1500:]))
 
